@@ -1,4 +1,47 @@
 ---------------------------- MODULE C07RepUbjson ----------------------------
-(* STUB - length-boundary inputs of Ubjson (see C07RepCbor.tla). *)
-UbjsonRepInputs == { <<0>> }
+(* Length-boundary inputs for UBJSON (Draft 12): every length-carrying head *)
+(* form (string, high-precision number, '#' count of arrays and objects,    *)
+(* '$'+'#' strongly typed containers) with its length in each of the five   *)
+(* integer types at the boundary counts of that width, followed by exactly  *)
+(* / one fewer / one more elements (symbolic repetition); plus uncounted    *)
+(* containers of the same sizes.  Objects have DISTINCT two-character keys. *)
+(* Every input stays below 2000 bytes.  Used by MC_C07 in TokMode "rep".    *)
+EXTENDS Naturals, Sequences
+LOCAL URep(x, n) == [i \in 1..(n * Len(x)) |-> x[((i - 1) % Len(x)) + 1]]
+LOCAL UBE(n, w) == [i \in 1..w |-> (n \div (256 ^ (w - i))) % 256]
+\* the count n (< 2^16) as an integer of type marker m: i U I l L
+LOCAL ULen(n, m) == CASE m = 105 -> <<105, n>> [] m = 85 -> <<85, n>> [] m = 73 -> <<73>> \o UBE(n, 2)
+                      [] m = 108 -> <<108, 0, 0>> \o UBE(n, 2) [] m = 76 -> <<76, 0, 0, 0, 0, 0, 0>> \o UBE(n, 2)
+\* n members with distinct keys "@@", "@A", ... ; key = [i][2][c1][c2]; the value bytes are vb (possibly empty)
+LOCAL UPairs(n, vb) == IF n = 0 THEN <<>>
+                       ELSE LET w == 4 + Len(vb) IN
+                            [i \in 1..(n * w) |-> LET p == (i - 1) \div w  q == (i - 1) % w IN
+                               IF q = 0 THEN 105 ELSE IF q = 1 THEN 2 ELSE IF q = 2 THEN 64 + (p \div 60) ELSE IF q = 3 THEN 64 + (p % 60) ELSE vb[q - 3]]
+\* <<count, integer type marker>>
+LOCAL UCounts == { <<0, 105>>, <<1, 105>>, <<126, 105>>, <<127, 105>>,
+                   <<0, 85>>, <<127, 85>>, <<128, 85>>, <<254, 85>>, <<255, 85>>,
+                   <<1, 73>>, <<128, 73>>, <<255, 73>>, <<256, 73>>, <<257, 73>>,
+                   <<1, 108>>, <<256, 108>>, <<1, 76>>, <<256, 76>> }
+LOCAL UAdj(n) == {n} \cup (IF n > 0 THEN {n - 1} ELSE {}) \cup {n + 1}
+LOCAL USizes == {0, 1, 2, 127, 128, 255, 256, 257}
+UbjsonRepInputs ==
+  UNION { { <<83>> \o ULen(c[1], c[2]) \o URep(<<97>>, k) : k \in UAdj(c[1]) } : c \in UCounts } \cup                 \* S  strings
+  UNION { { <<72>> \o ULen(c[1], c[2]) \o URep(<<49>>, k) : k \in UAdj(c[1]) } : c \in UCounts } \cup                 \* H  digit runs
+  UNION { { <<91, 35>> \o ULen(c[1], c[2]) \o URep(<<105, 5>>, k) : k \in UAdj(c[1]) } : c \in UCounts } \cup         \* [# n  of int8 items
+  UNION { { <<91, 36, 105, 35>> \o ULen(c[1], c[2]) \o URep(<<251>>, k) : k \in UAdj(c[1]) } : c \in UCounts } \cup   \* [$i# n  (-5 each)
+  UNION { { <<91, 36, 85, 35>> \o ULen(c[1], c[2]) \o URep(<<200>>, k) : k \in UAdj(c[1]) } : c \in UCounts } \cup    \* [$U# n
+  UNION { { <<91, 36, 73, 35>> \o ULen(c[1], c[2]) \o URep(<<255, 0>>, k) : k \in UAdj(c[1]) } : c \in UCounts } \cup \* [$I# n  (-256 each)
+  UNION { { <<91, 36, 83, 35>> \o ULen(c[1], c[2]) \o URep(<<105, 1, 97>>, k) : k \in UAdj(c[1]) } : c \in UCounts } \cup   \* [$S# n
+  UNION { { <<91, 36, 67, 35>> \o ULen(c[1], c[2]) \o URep(<<97>>, k) : k \in UAdj(c[1]) } : c \in UCounts } \cup     \* [$C# n
+  UNION { { <<91, 36, 100, 35>> \o ULen(c[1], c[2]) \o URep(<<63, 128, 0, 0>>, k) : k \in UAdj(c[1]) } : c \in UCounts } \cup   \* [$d# n
+  UNION { { <<91, 36, 91, 35>> \o ULen(c[1], c[2]) \o URep(<<93>>, k) : k \in UAdj(c[1]) } : c \in UCounts } \cup     \* [$[# n  of empty arrays
+  { <<91, 36, t, 35>> \o ULen(c[1], c[2]) : t \in {90, 84, 70}, c \in UCounts \cup {<<300, 73>>, <<301, 73>>, <<1000, 108>>} } \cup   \* [$Z# n, [$T# n, [$F# n
+  UNION { { <<123, 35>> \o ULen(c[1], c[2]) \o UPairs(k, <<84>>) : k \in UAdj(c[1]) } : c \in UCounts } \cup          \* {# n  distinct keys : true
+  UNION { { <<123, 36, 105, 35>> \o ULen(c[1], c[2]) \o UPairs(k, <<7>>) : k \in UAdj(c[1]) } : c \in UCounts } \cup  \* {$i# n
+  UNION { { <<123, 36, 90, 35>> \o ULen(c[1], c[2]) \o UPairs(k, <<>>) : k \in UAdj(c[1]) } : c \in UCounts } \cup    \* {$Z# n  keys only
+  { <<91>> \o URep(<<105, 5>>, k) \o <<93>> : k \in USizes } \cup                                                    \* [ ... ]
+  { <<91>> \o URep(<<105, 5>>, k) : k \in {0, 1, 256} } \cup                                                         \* [ ... without end marker
+  { <<91>> \o URep(<<78, 90>>, k) \o <<93>> : k \in {1, 256} } \cup                                                  \* [ N Z N Z ... ]
+  { <<123>> \o UPairs(k, <<84>>) \o <<125>> : k \in USizes } \cup                                                    \* { ... }
+  { <<123>> \o UPairs(k, <<84>>) : k \in {0, 1, 256} }
 =============================================================================
